@@ -60,6 +60,10 @@ pub enum RcOp
     /// (cases with `ReactPlugin` only) a despawn reactor is registered on the pool entity: it gets a despawn tracker,
     /// and the reactor runs (through the runner, which collects) at the poll after its death
     Watch(u8),
+    /// a fresh counted entity made by the framework's own constructors: `.0` picks `spawn_rc_system_command`,
+    /// `spawn_rc_system_command_from` (both only with `ReactPlugin`), `spawn_rc_system` or `spawn_rc_system_from`; the
+    /// returned signal is the entity's only clone
+    SpawnRc(u8),
 }
 
 thread_local!
@@ -400,6 +404,24 @@ fn run_inner(case: &RcCase, out: &mut RcOutcome)
                 gcs += 1;
                 if m.alive[e] && m.count[e] > 0 { hit(out, "C10:framework_aimed_at_counted_entity"); }
             }
+            RcOp::SpawnRc(kind) =>
+            {
+                if ents.len() >= 16 { continue; }
+                let kind = if case.with_react { kind % 4 } else { 2 + kind % 2 };
+                let sig = match kind
+                {
+                    0 => spawn_rc_system_command(app.world_mut(), || {}),
+                    1 => spawn_rc_system_command_from(app.world_mut(), SystemCommandCallback::new(|| {})),
+                    2 => spawn_rc_system(app.world_mut(), |In(x): In<u8>| x),
+                    _ => spawn_rc_system_from(app.world_mut(), CallbackSystem::new(|In(x): In<u8>| x)),
+                };
+                ents.push(sig.entity());
+                m.alive.push(true); m.parent.push(None); m.prepared.push(true); m.count.push(1); m.doomed.push(false);
+                m.held.push(Vec::new()); m.either.push(false); m.fused.push(false); m.unknown.push(false);
+                sigs.push(Some(sig));
+                m.sigs.push(Some(ents.len() - 1));
+                hit(out, "C10:counted_entity_made_by_spawn_rc");
+            }
             RcOp::Watch(e) =>
             {
                 if !case.with_react { continue; }
@@ -615,7 +637,7 @@ pub fn decode(bytes: &[u8], max_ops: usize, threads: bool) -> RcCase
     let n_ops = below(byte(&mut u), max_ops + 1);
     for _ in 0..n_ops
     {
-        let k = below(byte(&mut u), 41);
+        let k = below(byte(&mut u), 43);
         let a = byte(&mut u) % 12;
         let b = byte(&mut u) % 12;
         let op = match k
@@ -638,6 +660,7 @@ pub fn decode(bytes: &[u8], max_ops: usize, threads: bool) -> RcCase
             36 | 37 => RcOp::SetupAgain,
             38 | 39 => RcOp::Poke(a, b),
             40 => RcOp::Watch(a),
+            41 | 42 => RcOp::SpawnRc(b),
             21 | 22 | 23 => RcOp::StoreOn(a, b),
             _ =>
             {
